@@ -134,6 +134,12 @@ func (g *c03gen) body(kind int) *Block {
 		b.Stmts = append(b.Stmts, sBreak(), g.cmd())
 	case 7:
 		b.Stmts = append(b.Stmts, sBreak())
+	case 8: // a do-while inside the body, then a break of the switch
+		cond := eLeaf(&Leaf{Kind: "flag", Operand: []string{fmt.Sprintf("FLAG_%d", rapid.IntRange(0, 2).Draw(g.t, "bf"))}})
+		b.Stmts = append(b.Stmts, &Stmt{K: "dowhile", Do: &DoWh{Cond: cond, Body: &Block{Stmts: []*Stmt{g.cmd()}}}}, g.cmd(), sBreak())
+	case 9: // a while loop with its own break inside the body, then commands
+		cond := eLeaf(&Leaf{Kind: "flag", Operand: []string{fmt.Sprintf("FLAG_%d", rapid.IntRange(0, 2).Draw(g.t, "bf"))}})
+		b.Stmts = append(b.Stmts, &Stmt{K: "while", While: &While{Cond: cond, Body: &Block{Stmts: []*Stmt{g.cmd(), sBreak()}}}}, g.cmd())
 	case 6:
 		cond := eLeaf(&Leaf{Kind: "flag", Operand: []string{fmt.Sprintf("FLAG_%d", rapid.IntRange(0, 2).Draw(g.t, "bf"))}})
 		b.Stmts = append(b.Stmts, &Stmt{K: "if", If: &If{Arms: []*Arm{{Cond: cond, Body: &Block{Stmts: []*Stmt{g.cmd()}}}}, Else: &Block{Stmts: []*Stmt{g.cmd()}}}})
@@ -186,13 +192,24 @@ func wrapCtx(ctx int, sw *Stmt, pre, post, in1, in2 *Stmt) (*File, map[string]in
 		cond := eLeaf(&Leaf{Kind: "flag", Operand: []string{"FLAG_ARM"}})
 		fixed["flag:FLAG_ARM"] = 1
 		body = []*Stmt{{K: "if", If: &If{Arms: []*Arm{{Cond: cond, Body: &Block{Stmts: []*Stmt{sw}}}}, Else: &Block{Stmts: []*Stmt{pre}}}}, post}
-	default: // condition-less while, switch first
+	case 7: // condition-less while, switch first
 		body = []*Stmt{{K: "while", While: &While{Body: &Block{Stmts: []*Stmt{sw, in2}}}}, post}
+	case 8: // inside another switch's case body, directly followed by a bare return that ends the body
+		outer := &Switch{Var: []string{"VAR_OUTER"}, Cases: []*Case{
+			{Val: []string{"7"}, Body: &Block{Stmts: []*Stmt{in1, sw, sCmd(&Cmd{Name: "return"})}}},
+			{IsDefault: true, Body: &Block{Stmts: []*Stmt{pre}}},
+		}}
+		fixed["var:VAR_OUTER"] = 7
+		body = []*Stmt{{K: "switch", Switch: outer}, post}
+	default: // inside an if arm, directly followed by end
+		cond := eLeaf(&Leaf{Kind: "flag", Operand: []string{"FLAG_ARM"}})
+		fixed["flag:FLAG_ARM"] = 1
+		body = []*Stmt{{K: "if", If: &If{Arms: []*Arm{{Cond: cond, Body: &Block{Stmts: []*Stmt{sw, sCmd(&Cmd{Name: "end"})}}}}}}, post}
 	}
 	return &File{Tops: []*Top{{K: "script", Script: &Script{Name: "S", Body: &Block{Stmts: body}}}}}, fixed
 }
 
-const c03Contexts = 8
+const c03Contexts = 10
 
 func c03Values(sw *Switch) []int {
 	var vals []int
@@ -228,7 +245,7 @@ func genC03(t *rapid.T) *C03Case {
 		} else {
 			cs.Val = caseValToks(vals[i], rapid.IntRange(0, 4).Draw(t, "vform"))
 		}
-		kind := rapid.SampledFrom([]int{0, 0, 0, 1, 1, 2, 3, 4, 5, 6, 7}).Draw(t, "bodykind")
+		kind := rapid.SampledFrom([]int{0, 0, 0, 1, 1, 2, 3, 4, 5, 6, 7, 8, 9}).Draw(t, "bodykind")
 		cs.Body = g.body(kind)
 		// continue is accepted only directly before '}' : last statement of the last case
 		if inLoop && i == nc-1 && kind != 0 && rapid.IntRange(0, 3).Draw(t, "cont") == 0 {
@@ -246,7 +263,7 @@ func init() {
 	register("C03", "TestC03_Switch", checkC03, c03Src)
 }
 
-const c03Rule = "one switch of 1-6 cases (distinct decimal/hex/symbolic/multi-token values, default absent or at any position, bodies: empty, commands, a lone break, break at the end / in the middle / inside a nested if / first, nested if; continue at the end of the last case inside loops) in 8 contexts (only/first/last statement, inside while, do-while, condition-less while, another switch's body, an if arm); for EVERY case value and one value matching nothing a scripted world fixes the var and the assembly run must equal the reference run, optimize off and on; plus exhaustive enumeration of all case lists with <=3 entries (thorough 4, 5 with fewer body kinds). non-trivial = the list has an empty case or a default that is not last AND two values produced different outcomes; distinct by source text"
+const c03Rule = "one switch of 1-6 cases (distinct decimal/hex/symbolic/multi-token values, default absent or at any position, bodies: empty, commands, a lone break, break at the end / in the middle / inside a nested if / first, nested if, a do-while / while loop inside the body; continue at the end of the last case inside loops) in 10 contexts (only/first/last statement, followed by a bare return / end inside a nested block, inside while, do-while, condition-less while, another switch's body, an if arm); for EVERY case value and one value matching nothing a scripted world fixes the var and the assembly run must equal the reference run, optimize off and on; plus exhaustive enumeration of all case lists with <=3 entries (thorough 4, 5 with fewer body kinds). non-trivial = the list has an empty case or a default that is not last AND two values produced different outcomes; distinct by source text"
 
 func TestC03_Regress(t *testing.T) { runRegress(t, "C03") }
 
